@@ -721,6 +721,26 @@ func (e *SpecEnv) callSpec(n SCall) (SVal, error) {
 			return SVal{}, err
 		}
 		return SVal{V: u.unboxNoAssume(iv.Pay, t), T: t}, nil
+	case "typetag": // typetag(x): the dynamic type tag of an interface value (0 for nil)
+		v, err := e.eval(n.Args[0])
+		if err != nil {
+			return SVal{}, err
+		}
+		iv, ok := v.V.(IfaceV)
+		if !ok {
+			return SVal{}, fmt.Errorf("typetag on %T", v.V)
+		}
+		return SVal{V: Scalar{iv.Tag}}, nil
+	case "payload": // payload(x): the data word of an interface value (for pointer dynamic types: the pointer; 0 = typed nil)
+		v, err := e.eval(n.Args[0])
+		if err != nil {
+			return SVal{}, err
+		}
+		iv, ok := v.V.(IfaceV)
+		if !ok {
+			return SVal{}, fmt.Errorf("payload on %T", v.V)
+		}
+		return SVal{V: Scalar{iv.Pay}}, nil
 	case "sentinel": // sentinel("pkg.ErrName"): an immutable package-level error value of a dependency
 		tn, ok := n.Args[0].(SStrLit)
 		if !ok {
